@@ -281,15 +281,16 @@ ALLOC = [
 SQUIDS_MEMBERS = ['CoherentRhoTerms', 'NonCoherentRhoTerms', 'OtherRhoTerms', 'GammaScalarTerms', 'OtherScalarTerms', 'AnyNumerics', 'is_init', 'adaptive_step', 't_ini', 'nsteps', 'size_rho', 'size_state', 'system', 'step', 'sys', 'h_min', 'h_max', 'abs_error', 'rel_error', 'dstate', 'nx', 'nsun', 'nrhos', 'nscalars', 'state', 'estate', 'last_dstate_ptr', 'last_estate_ptr', 'x', 't', 'h']
 # closed table of statement forms with overloaded SU_vector expressions in SQuIDS.cpp (DESIGN App. E)
 SQUIDS_FORMS = [
-    Rule("form.icomm", r'(dstate\[ei\]\.rho\[i\])\s*=\s*iCommutator\s*\(\s*(estate\[ei\]\.rho\[i\])\s*,\s*HI\s*\(\s*ei\s*,\s*i\s*,\s*t\s*\)\s*\)\s*;',
-         r'{ struct SU_vector tmp_; hook_vec(K_HI,self,ei,i,t,&tmp_); op_assign_icomm(&\1,&\2,&tmp_,0); }'),
+    # the three hook arguments are arbitrary call-free expressions: what they must be (node, index, stepper time) is the harness's obligation, not the extractor's
+    Rule("form.icomm", r'(dstate\[ei\]\.rho\[i\])\s*=\s*iCommutator\s*\(\s*(estate\[ei\]\.rho\[i\])\s*,\s*HI\s*\(\s*([^(),;]+?)\s*,\s*([^(),;]+?)\s*,\s*([^(),;]+?)\s*\)\s*\)\s*;',
+         r'{ struct SU_vector tmp_; hook_vec(K_HI,self,\3,\4,\5,&tmp_); op_assign_icomm(&\1,&\2,&tmp_,0); }'),
     Rule("form.setall", r'(dstate\[ei\]\.rho\[i\])\.SetAllComponents\s*\(\s*([^)]*)\)\s*;', r'op_setall(&\1,\2);'),
-    Rule("form.acomm", r'(dstate\[ei\]\.rho\[i\])\s*-=\s*ACommutator\s*\(\s*GammaRho\s*\(\s*ei\s*,\s*i\s*,\s*t\s*\)\s*,\s*(estate\[ei\]\.rho\[i\])\s*\)\s*;',
-         r'{ struct SU_vector tmp_; hook_vec(K_GAMMARHO,self,ei,i,t,&tmp_); op_assign_acomm(&\1,&tmp_,&\2,2); }'),
-    Rule("form.pluseq", r'(dstate\[ei\]\.rho\[i\])\s*\+=\s*InteractionsRho\s*\(\s*ei\s*,\s*i\s*,\s*t\s*\)\s*;',
-         r'{ struct SU_vector tmp_; hook_vec(K_INTRHO,self,ei,i,t,&tmp_); op_pluseq(&\1,&tmp_); }'),
-    Rule("form.gammas", r'\bGammaScalar\s*\(\s*ei\s*,\s*is\s*,\s*t\s*\)', 'hook_scalar(K_GAMMAS,self,ei,is,t)'),
-    Rule("form.ints", r'\bInteractionsScalar\s*\(\s*ei\s*,\s*is\s*,\s*t\s*\)', 'hook_scalar(K_INTS,self,ei,is,t)'),
+    Rule("form.acomm", r'(dstate\[ei\]\.rho\[i\])\s*-=\s*ACommutator\s*\(\s*GammaRho\s*\(\s*([^(),;]+?)\s*,\s*([^(),;]+?)\s*,\s*([^(),;]+?)\s*\)\s*,\s*(estate\[ei\]\.rho\[i\])\s*\)\s*;',
+         r'{ struct SU_vector tmp_; hook_vec(K_GAMMARHO,self,\2,\3,\4,&tmp_); op_assign_acomm(&\1,&tmp_,&\5,2); }'),
+    Rule("form.pluseq", r'(dstate\[ei\]\.rho\[i\])\s*\+=\s*InteractionsRho\s*\(\s*([^(),;]+?)\s*,\s*([^(),;]+?)\s*,\s*([^(),;]+?)\s*\)\s*;',
+         r'{ struct SU_vector tmp_; hook_vec(K_INTRHO,self,\2,\3,\4,&tmp_); op_pluseq(&\1,&tmp_); }'),
+    Rule("form.gammas", r'\bGammaScalar\s*\(\s*([^(),;]+?)\s*,\s*([^(),;]+?)\s*,\s*([^(),;]+?)\s*\)', r'hook_scalar(K_GAMMAS,self,\1,\2,\3)'),
+    Rule("form.ints", r'\bInteractionsScalar\s*\(\s*([^(),;]+?)\s*,\s*([^(),;]+?)\s*,\s*([^(),;]+?)\s*\)', r'hook_scalar(K_INTS,self,\1,\2,\3)'),
     Rule("form.prederive", r'\bPreDerive\s*\(\s*(\w+)\s*\)\s*;', r'hook_pre(self,\1);'),
     Rule("form.setbacking", r'((?:estate|dstate)\[ei\]\.rho\[i\])\.SetBackingStore\s*\(((?:[^()]|\((?:[^()]|\([^()]*\))*\))*)\)\s*;', r'op_setbacking(&\1,\2);'),
 ]
